@@ -1,5 +1,5 @@
 """C07 — all interfaces to the same computation return the same numbers"""
-from corr import iface_family, level2_family
+from corr import dict_family, iface_family, level2_family
 from oracles import c07 as oracle
 
 GEN = ["Ndim"]
@@ -20,6 +20,13 @@ def run(ctx, model_ok):
         ist = iface_family.run_stream(ctx, ctx.scale(400, 8000))
         ist.pop("samples", None)
         ctx.cov["correspondence_iface"] = ist
+        # classification_correct / dict_interface_tiling / mismatched_lengths_rejected / dict_interface_is_level1_rowwise are theorems
+        # about Model/DictIface (getBH_dict_level2): tie it to magpylib.getB/getH("ClassName", observers, **kwargs) by the dict
+        # stream (exact): every registered class with its field function swapped from the outside for a recording integer-affine
+        # one, a harness-registered test class with random rank tables, and the unpatched classes on valid inputs (shapes only)
+        dst = dict_family.run_stream(ctx, ctx.scale(520, 8000))
+        dst.pop("samples", None)
+        ctx.cov["correspondence_dict"] = dst
     else:
         ctx.cov["correspondence"] = "driver did not build"
     budget = 10 if len(ctx.broken) else 1
@@ -37,13 +44,16 @@ def run(ctx, model_ok):
                             "in_out, the string-source route of getBH_level2 and numeric arrays whose last axis is not 3 are not in that model",
                             "dataframe: pandas DataFrame construction and column assignment are assumed as modelled (index list next to value list); labels are modelled by entry/sensor index",
                             "the rank of one parameter value is read from a valid instance's attribute by the generator (trusted)",
-                            "functional interface getBH_dict_level2: Model/DictIface.lean (treat / vecLen / rows) is NOT executed by the driver and no stream compares it "
-                            "with the real function; classification_correct, dict_interface_tiling and mismatched_lengths_rejected unfold that hand-written model "
-                            "(np.squeeze of a length-1 stack, ragged object arrays, position/orientation/observers tiling, the default rank 1 for unknown keys are not in it). "
-                            "What ties the functional interface to the code is the regenerated rank table (table_is_rank_plus_one, table_covers_source_classes) and the cross-interface oracle",
+                            "functional interface getBH_dict_level2: Model/DictIface.lean is executed by the driver family `dict` and compared with the real function "
+                            "by the dict stream (error kind, n, every argument the field function receives, source-frame observers, output shape and values, exact). "
+                            "Not in the model: observers / position of rank other than 1 or 2 or with a last axis other than 3 (the code hands them on and numpy "
+                            "broadcasting decides), orientation=None, values with an empty axis, dict / str values (KeyError / ValueError leak), the scipy quaternion "
+                            "round trip (modelled as tiling the rotations; octahedral rotations only in the stream); the field function is taken to be row-wise "
+                            "(dict_interface_is_level1_rowwise is about a row-wise F; row independence of the real field functions is C05/C06); for the unpatched "
+                            "classes only accept / reject / output shape are compared on valid-rank inputs (values: cross-interface oracle, floats)",
                             "method_wrappers_agree: the first two conjuncts hold by definition of the model (srcMethod / sensMethod are defined as the top-level call); "
                             "their content is the iface stream comparing the model with src.getB / sens.getB / coll.getB"]
-    ctx.assumptions += ["np.tile / np.squeeze semantics in getBH_dict_level2 as modelled by DictIface.rows"]
+    ctx.assumptions += ["np.tile / np.squeeze / np.array semantics in getBH_dict_level2 as modelled by DictIface.Arr (exercised by the dict stream)"]
 
 
 def replay(ctx, payload):
